@@ -27,6 +27,9 @@ package main
 //       srv.Chunks()                          copy of the log: every completely received chunk with attempt number,
 //                                             chunk id (option.chunk), tag, decoded events (time + flattened fields,
 //                                             stamp parsed from the message) and whether/when an ACK was written
+//                                             (ffChunk: Attempt, ID, Tag, Events, Acked/AckSeq, AckTried/AckTrySeq = logged
+//                                             BEFORE the ACK is written; chunk ids are unique per pipeline only:
+//                                             identify a chunk by id + tag)
 //       srv.WaitFor(cond, timeout)            event-driven wait: cond is re-evaluated after every server event
 //       srv.WaitAckedStamps(set, timeout)     until every stamp of the set is in an ACKed chunk
 //       srv.Close()
